@@ -239,6 +239,19 @@ def run_solve_t(Model, case):
         if 0 <= src < n:
             m.A[src] = case['offset_source'].get('A', 0.0)
             m.B[src] = case['offset_source'].get('B', 0.0)
+    hist = case.get('history')
+    if hist:
+        # the model reaches the call through a copy, a reindex onto its own span, or a round trip through pickle
+        import copy as _copy
+        import pickle as _pickle
+        if hist == 'copy':
+            m = m.copy()
+        elif hist == 'deepcopy':
+            m = _copy.deepcopy(m)
+        elif hist == 'reindex':
+            m = m.reindex(make_span(case.get('span_kind'), n))
+        elif hist == 'add-variable':
+            m.add_variable('Late', 3.5)
     if case.get('prior_record'):
         # every period already carries a solution record from an earlier call
         m.status[:] = case['prior_record'][0]
